@@ -251,6 +251,35 @@ def import_programs():
     return out
 
 
+def class_import_programs():
+    """runnable: imports in a class body — directly or inside an `if` / `try` / `with` / `for` / `while` block of it — of a class at
+    module level, in a function, or in another class; the imported names are class attributes and are read often"""
+    out = []
+    blocks = {'direct': '{I}', 'if': 'if flag_value:\n    {I}', 'try': 'try:\n    {I}\nexcept ImportError:\n    pass', 'with': 'with context_value:\n    {I}',
+              'for': 'for _ in [0]:\n    {I}', 'while': 'while True:\n    {I}\n    break', 'if-else': 'if not flag_value:\n    pass\nelse:\n    {I}',
+              'try-finally': 'try:\n    pass\nfinally:\n    {I}'}
+    imports = {'two-statements': 'import collections\nimport itertools', 'one-statement': 'import collections, itertools',
+               'with-other-between': 'import collections\nmarker_value = 1\nimport itertools', 'dotted-and-plain': 'import os.path\nimport collections\nimport itertools',
+               'as-names': 'import collections as collections\nimport itertools', 'from-imports': 'from os import path\nimport collections\nfrom os import sep\nimport itertools'}
+    uses = ('counted = collections.Counter("aabc").most_common(1)\nchained = list(itertools.chain([1], [2])) + list(itertools.chain([3])) + [collections.OrderedDict().__class__.__name__]\n'
+            'def method(self):\n    return self.collections.__name__, self.itertools.__name__')
+    wraps = {'module': 'flag_value = True\nimport contextlib\ncontext_value = contextlib.nullcontext()\nclass Tools:\n{B}\nprint(sorted(n for n in Tools.__dict__ if not n.startswith("_")), Tools.counted, Tools.chained, Tools().method())\n',
+             'function': 'import contextlib\ndef make_tools(flag_value, context_value):\n    class Tools:\n{BB}\n    return sorted(n for n in Tools.__dict__ if not n.startswith("_")), Tools.counted, Tools.chained, Tools().method()\nprint(make_tools(True, contextlib.nullcontext()))\n',
+             'class': 'flag_value = True\nimport contextlib\ncontext_value = contextlib.nullcontext()\nclass Outer:\n    class Tools:\n{BB}\nprint(sorted(n for n in Outer.Tools.__dict__ if not n.startswith("_")), Outer.Tools.counted, Outer.Tools().method())\n'}
+    for bk, block in sorted(blocks.items()):
+        for ik, imp in sorted(imports.items()):
+            inner = block.replace('{I}', imp.replace('\n', '\n' + ' ' * (block.index('{I}') - block.rfind('\n', 0, block.index('{I}')) - 1)))
+            body = inner + '\n' + uses
+            for wk, wrap in sorted(wraps.items()):
+                src = wrap.replace('{BB}', _indent_text(body, 8)).replace('{B}', _indent_text(body, 4))
+                out.append(('class-import/%s/%s/%s' % (wk, bk, ik), src))
+    return out
+
+
+def _indent_text(text, n):
+    return '\n'.join((' ' * n + line) if line else line for line in text.split('\n'))
+
+
 def parameter_programs():
     """functions whose parameters mix ordinary (keyword-callable, so never renamed in the signature) names — spelled long or like
     generated names — with parameters that are renamed in place (*args, **kwargs, positional-only, self/cls), at varying
